@@ -144,4 +144,26 @@ def inBands : List (Int × Int × Nat) → Int → Option Nat
   | [], _ => none
   | (lo, hi, x) :: rest, k => if lo ≤ k ∧ k ≤ hi then some x else inBands rest k
 
+/-- all six impact metrics, after the Modified metrics override the Base
+    ones (Modified value unless absent or X), are None — "no impact" in the
+    sense of specification section 8.2 -/
+def v4EffectiveNoImpact (v : Vec) : Bool :=
+  [5, 6, 7, 8, 9, 10].all fun m =>
+    let md := v.get (m + 15)
+    decide ((if md = 0 ∨ md = cX then v.get m else md) = cN)
+
+/-- "CVSS:4.0/AV:N/AC:L/AT:N/PR:N/UI:N/VC:H/VI:H/VA:H/SC:H/SI:H/SA:H/MVC:N/MVI:N/MVA:N/MSC:N/MSI:N/MSA:N" -/
+def v4ModifiedWitness : Bytes := [67, 86, 83, 83, 58, 52, 46, 48, 47, 65, 86, 58, 78, 47, 65, 67, 58, 76, 47, 65, 84, 58, 78,
+  47, 80, 82, 58, 78, 47, 85, 73, 58, 78, 47, 86, 67, 58, 72, 47, 86, 73, 58, 72, 47, 86, 65, 58, 72,
+  47, 83, 67, 58, 72, 47, 83, 73, 58, 72, 47, 83, 65, 58, 72,
+  47, 77, 86, 67, 58, 78, 47, 77, 86, 73, 58, 78, 47, 77, 86, 65, 58, 78,
+  47, 77, 83, 67, 58, 78, 47, 77, 83, 73, 58, 78, 47, 77, 83, 65, 58, 78]
+
+
+/-- "AV:L/AC:H/Au:M/C:P/I:N/A:N/CDP:ND/TD:ND/CR:L/IR:ND/AR:ND" -/
+def v2NegativeWitness : Bytes := [65, 86, 58, 76, 47, 65, 67, 58, 72, 47, 65, 117, 58, 77, 47, 67, 58, 80, 47, 73, 58, 78,
+  47, 65, 58, 78, 47, 67, 68, 80, 58, 78, 68, 47, 84, 68, 58, 78, 68, 47, 67, 82, 58, 76, 47, 73, 82, 58, 78, 68,
+  47, 65, 82, 58, 78, 68]
+
+
 end ClairModel.CvssSpec
